@@ -307,6 +307,12 @@ Definition send_interactive_code : list dstmt :=
 (* channel/sendinput.go Channel.SendInputB *)
 Definition send_input_code : list dstmt :=
   [DCall "NewOperation(opts...)"; DIf (DNot (DEq "err" "nil")) [DReturn "nil, err"] []; DAssign "readUntilF" "c.ReadUntilFuzzy"; DIf (DAtom "op.ExactMatchInput") [DAssign "readUntilF" "c.ReadUntilExplicit"] []; DAssign "cr" "make(chan *result)"; DCall "context.WithTimeout(context.Background(), c.GetTimeout(op.Timeout)) -> ctx, cancel"; DCall "defer cancel()"; DRange "go" "once" [DAssign "err" "c.Write(input, false)"; DIf (DNot (DEq "err" "nil")) [DCall "cr <- &result{b: b, err: err}"; DBreak] []; DCall "readUntilF(ctx, input)"; DIf (DNot (DEq "err" "nil")) [DCall "cr <- &result{b: b, err: err}"; DBreak] []; DAssign "err" "c.WriteReturn()"; DIf (DNot (DEq "err" "nil")) [DCall "cr <- &result{b: b, err: err}"; DBreak] []; DIf (DNot (DAtom "op.Eager")) [DIf (DEq "len(op.InterimPromptPatterns)" "0") [DCall "c.ReadUntilPrompt(ctx) -> nb, readErr"] [DAssign "prompts" "[]*regexp.Regexp{c.PromptPattern}"; DAssign "prompts" "append(prompts, op.InterimPromptPatterns...)"; DCall "c.ReadUntilAnyPrompt(ctx, prompts) -> nb, readErr"]; DIf (DNot (DEq "readErr" "nil")) [DCall "cr <- &result{b: b, err: readErr}"; DBreak] []; DAssign "b" "append(b, nb...)"] []; DCall "cr <- &result{ b: c.processOut(b, op.StripPrompt), err: nil, }"]; DAssign "r" "<-cr"; DIf (DNot (DEq "r.err" "nil")) [DIf (DAtom "errors.Is(r.err, context.DeadlineExceeded)") [DReturn "nil, fmt.Errorf( ""%w: channel timeout sending input to device"", util.ErrTimeoutError, )"] []; DReturn "nil, r.err"] []; DReturn "r.b, nil"].
+(* driver/generic/sendwithcallbacks.go Driver.executeCallback *)
+Definition execute_callback_code : list dstmt :=
+  [DAssign "cb" "callbacks[i]"; DIf (DAtom "cb.Once") [DIf (DAtom "cb.triggered") [DReturn "nil, fmt.Errorf( ""%w: callback once set, and callback already triggered"", util.ErrOperationError, )"] []; DAssign "cb.triggered" "true"] []; DIf (DNot (DEq "cb.Callback" "nil")) [DAssign "err" "cb.Callback(d, string(b))"; DIf (DNot (DEq "err" "nil")) [DReturn "nil, err"] []] []; DIf (DAtom "cb.Complete") [DReturn "fb, nil"] []; DIf (DAtom "cb.ResetOutput") [DAssign "b" "nil"] []; DAssign "nt" "t"; DIf (DNot (DEq "cb.NextTimeout" "0")) [DAssign "nt" "cb.NextTimeout"] []; DReturn "d.handleCallbacks(callbacks, b, fb, nt)"].
+(* driver/generic/sendwithcallbacks.go Driver.handleCallbacks: the scan over the callbacks *)
+Definition callback_scan_code : dstmt :=
+  DRange "cb" "callbacks" [DAssign "i" "index of cb"; DIf (DAtom "cb.check(b)") [DCall "c <- &callbackResult{ i: i, callbacks: callbacks, b: b, fb: fb, err: nil, }"; DReturn ""] []].
 (* the option loops of the constructors (C19) *)
 Definition option_loops : list (string * dstmt) := [
   ("driver/generic/driver.go NewDriver",
